@@ -97,6 +97,33 @@ func genC01(r *rng, tier string, emit func(string)) {
 	if tier == "thorough" {
 		n = 800
 	}
+	// digest-level verification with r + s = n: then [t]P is the point at infinity and the public key drops out of
+	// the equation, so for e = r - x([s]G) the tuple "verifies" under EVERY key unless r + s = 0 mod n is refused
+	{
+		c := sm2.P256Sm2()
+		N := c.Params().N
+		for i := 0; i < 12; i++ {
+			k := r.sm2key()
+			sv := new(big.Int).SetBytes(r.bytes(32))
+			sv.Mod(sv, new(big.Int).Sub(N, big.NewInt(1))).Add(sv, big.NewInt(1))
+			rv := new(big.Int).Sub(N, sv)
+			x1, _ := c.ScalarBaseMult(sv.Bytes())
+			e := new(big.Int).Sub(rv, x1)
+			e.Mod(e, N)
+			eb := e.FillBytes(make([]byte, 32))
+			emit(fmt.Sprintf("sm2verifye %s %s %s %s %s", bhex(k.x), bhex(k.y), hx(eb), bhex(rv), bhex(sv)))
+			// and a genuine digest-level signature for comparison
+			msg := r.bytes(1 + r.intn(50))
+			pub := pubFromXY(k.x, k.y)
+			if dg, err := pub.Sm3Digest(msg, nil); err == nil {
+				if r2, s2, err := sm2.Sm2Sign(privFromD(k.d), msg, nil, &fixedRand{r.bytes(200)}); err == nil {
+					emit(fmt.Sprintf("sm2verifye %s %s %s %s %s", bhex(k.x), bhex(k.y), hx(dg), bhex(r2), bhex(s2)))
+					dg[0] ^= 1
+					emit(fmt.Sprintf("sm2verifye %s %s %s %s %s", bhex(k.x), bhex(k.y), hx(dg), bhex(r2), bhex(s2)))
+				}
+			}
+		}
+	}
 	// fresh randomness, delivered in pieces of 1 / 3 / 7 / 39 bytes or whole: no r twice
 	for _, chunk := range []int{1, 1, 3, 7, 39, 0} {
 		k := r.sm2key()
@@ -365,6 +392,11 @@ func genC02(r *rng, tier string, emit func(string)) {
 			if i%6 == 0 {
 				x1, y1 = big.NewInt(1), big.NewInt(2)
 			}
+			if i%12 == 3 || i == 0 {
+				// C1 = (0,0), the library's affine encoding of the point at infinity: [d](0,0) = (0,0) for every d, so a
+				// decryptor that takes it for a curve point accepts this ciphertext under every key
+				x1, y1 = big.NewInt(0), big.NewInt(0)
+			}
 			f := forgedOffCurve(k.d, x1, y1, msg)
 			emit(fmt.Sprintf("sm2dec %s c1c3c2 %s", bhex(k.d), hx(f)))
 			if a, err := sm2.CipherMarshal(f); err == nil {
@@ -446,6 +478,20 @@ func genC13(r *rng, tier string, emit func(string)) {
 			ex, ey = rb.x, rb.y // genuine: must succeed
 		}
 		emit(fmt.Sprintf("sm2kexbad %s %d %s %s %s %s %s %s %s %s", role, klen, hx([]byte("A")), hx([]byte("B")), bhex(a.d), bhex(ra.d), bhex(b.x), bhex(b.y), bhex(ex), bhex(ey)))
+		// a peer whose long-term key cancels its ephemeral one: d = -xbar(R)*r mod n makes P + [xbar]R the point at
+		// infinity, so V is infinite and the standard demands failure (two OPPOSITE points are added on the way)
+		if i%3 == 0 {
+			c := sm2.P256Sm2()
+			N := c.Params().N
+			xbar := new(big.Int).And(ra.x, new(big.Int).Sub(new(big.Int).Lsh(big.NewInt(1), 127), big.NewInt(1)))
+			xbar.Add(xbar, new(big.Int).Lsh(big.NewInt(1), 127))
+			dp := new(big.Int).Mul(xbar, ra.d)
+			dp.Neg(dp).Mod(dp, N)
+			if dp.Sign() != 0 {
+				px, py := c.ScalarBaseMult(dp.Bytes())
+				emit(fmt.Sprintf("sm2kexbad %s %d %s %s %s %s %s %s %s %s", role, klen, hx([]byte("A")), hx([]byte("B")), bhex(b.d), bhex(rb.d), bhex(px), bhex(py), bhex(ra.x), bhex(ra.y)))
+			}
+		}
 	}
 }
 
